@@ -99,11 +99,16 @@ fn sampler_case(ctx: &mut Ctx, idx: u64, rng: &mut Rng) {
 /// a 1000-pass solve cannot.
 fn chance_sampler_case(ctx: &mut Ctx, idx: u64, rng: &mut Rng, quick: bool) {
     let n = rng.range(2, 8);
+    // per vector: small integers (deals like 1:2:3, where some weight equals total/n), dyadic
+    // fractions, or a free mix incl. outcomes of probability ~1e-3
+    let family = rng.below(3);
     let weights: Vec<f64> = (0..n)
-        .map(|_| match rng.below(4) {
-            0 => 1.0,
-            1 => 0.05 + rng.unit(),
-            2 => 10f64.powf(-3.0 * rng.unit()),
+        .map(|_| match (family, rng.below(4)) {
+            (0, _) => rng.range(1, 6) as f64,
+            (1, _) => (2.0f64).powi(-(rng.range(0, 4) as i32)),
+            (_, 0) => 1.0,
+            (_, 1) => 0.05 + rng.unit(),
+            (_, 2) => 10f64.powf(-3.0 * rng.unit()),
             _ => rng.range(1, 6) as f64,
         })
         .collect();
@@ -360,7 +365,7 @@ pub fn run(ctx: &mut Ctx) {
     let quick = ctx.quick();
     let n = if quick { 30_000 } else { 1_500_000 };
     ctx.run_cases(n, |ctx, idx, rng| {
-        if idx % 64 == 5 {
+        if idx % 32 == 5 {
             chance_sampler_case(ctx, idx, rng, quick);
         } else if idx % 8 == 0 {
             solve_case(ctx, idx, rng, quick);
